@@ -584,6 +584,8 @@ def explore(ctx, factor, bs):
             for fid, f in FORMS.items():
                 if outcome["kind"] == "sleep" and fid not in ("plain", "itemsets", "late"):
                     continue  # each validating run costs SHORT_TIMEOUT
+                if f.get("fault") and outcome["tag"] not in ("exit0-silent", "exit>0-named-paths", "java-absent", "killed"):
+                    continue  # the validator is never reached behind a failed write: a few environments suffice
                 for mode in modes(rng):
                     if f.get("lib_only"):
                         if mode["kind"] != "lib":
